@@ -54,7 +54,13 @@ func (k c05) Run(c *rt.Ctx) {
 	st := gen.NewStore(r, c05Families[r.Intn(len(c05Families))])
 	g := fullGenFor(c, st, r)
 	g.RefBias = r.Range(2, 4)
-	g.NoJSON = r.Chance(2, 3)
+	// constructs that can fail at run time depending on the data (dynamically
+	// typed JSON members, unequal vector lengths) are not generated: with them
+	// the aliased and the expanded text may legitimately differ in *whether a
+	// failing sub-expression gets evaluated* (constant folding of a constant
+	// alias definition, no short-circuit in batch mode)
+	g.NoJSON = true
+	g.NoUnequalVec = true
 	var stmt *gen.Stmt
 	for try := 0; try < 8; try++ {
 		stmt = g.Select(r.Range(1, 3))
